@@ -9,15 +9,18 @@
           branch target is a label of the table;
     * E2/E3  `constantTimeCompare_is_or_of_xors`: for every tag size ≤ 16 the two loops (by 8, by 1) and the final fold leave in
           `G2` the OR of the byte-wise XORs of expected and received tag (loop inductions; the expected tag is overwritten in place);
-          `openAsm_until_verdict_nonce12`: the state at the verdict; the ladder is `C06AsmSeal.cryptoBlocksAsm_is_ladN` with hashFlag 0;
-    * E4  **`openAsm_eq_spec_nonce12`**: for all round keys, 12-byte nonces, additional data, inputs `ct` (ciphertext ‖ tag, at least
-          `t` bytes), tag sizes `t ≤ 16`, initial registers, old contents of destination, scratch buffer and result slot:
+          `openAsm_until_verdict`: the state at the verdict; the ladder is `C06AsmSeal.cryptoBlocksAsm_is_ladN` with hashFlag 0;
+    * E4  **`openAsm_eq_spec`**: for all round keys, nonces of EVERY length (< 2^32), additional data, inputs `ct` (ciphertext ‖ tag,
+          at least `t` bytes), tag sizes `t ≤ 16`, initial registers, old contents of destination, scratch buffer and result slot:
           the run returns; if `Spec.GCM.openGCM` rejects, the result slot is 0 and the destination is UNTOUCHED (only the scratch
           buffer has changed); if it accepts with plaintext `p`, the result slot is 1 and the destination is `p` followed by its
           old contents beyond |p|.  In particular no plaintext byte is written before the tag has been verified.
-  NOT proved here: nonces of other lengths (the GHASH path of `calculateJ0`), exactly as for `sealAsm` (Props/C06AsmSeal.lean).
+    * IN PLACE  **`openAsm_inplace_eq_spec`**: the same on the entry state `openStateInPlace` (SMGo/Model/ISAValGcmInPlace.lean) of the
+          call `Open(ct[:0], nonce, ct, aad)`: the slots `dst` and `cipher` hold the SAME address, the destination region is the
+          input array; on a mismatch the array is untouched, otherwise its first |ct| − t bytes are the plaintext and the tag
+          bytes behind them keep their values.
 -/
-import SMGo.Proofs.ISAValOpenFinal
+import SMGo.Proofs.ISAValInPlaceOpen
 namespace SMGo.Props.C07Asm
 open SMGo
 open SMGo.Model.ISAVal SMGo.Model.GCM SMGo.Spec.GCM
@@ -50,39 +53,55 @@ theorem constantTimeCompare_is_or_of_xors (r : Routine) (k : Nat) (hs : Slice r 
 theorem or_of_xors_zero_iff (a b : List Nat) (h : a.length = b.length) : orBytes (xorN a b) = 0 ↔ a = b :=
   orBytes_xorN_eq_zero a b h
 
-/-- `openAsm` from its entry to the verdict (instruction 1775), 12-byte nonce: `G2` holds the OR of the differences between the
+/-- `openAsm` from its entry to the verdict (instruction 1775), any nonce: `G2` holds the OR of the differences between the
     expected tag (GHASH over additional data and ciphertext, length block, mask E(J0)) and the received tag -/
-theorem openAsm_until_verdict_nonce12 (g v k rk : List Nat) (t : Nat) (dst nonce ct aad tmp : List Nat) (r0 : Nat)
+theorem openAsm_until_verdict (g v k rk : List Nat) (t : Nat) (dst nonce ct aad tmp : List Nat) (r0 : Nat)
     (hG : g.length = 16) (hV : v.length = 32) (hK : k.length = 8) (hrk : rk.length = 32) (hrkb : ∀ x ∈ rk, x < 2 ^ 32)
-    (hn : nonce.length = 12) (hnb : ∀ x ∈ nonce, x < 2 ^ 8) (hab : ∀ x ∈ aad, x < 2 ^ 8) (hall : aad.length < 2 ^ 32)
+    (hnl : nonce.length < 2 ^ 32) (hnb : ∀ x ∈ nonce, x < 2 ^ 8) (hab : ∀ x ∈ aad, x < 2 ^ 8) (hall : aad.length < 2 ^ 32)
     (hcb : ∀ x ∈ ct, x < 2 ^ 8) (hcl : ct.length < 2 ^ 32) (ht : t ≤ 16) (htc : t ≤ ct.length) (htmp : tmp.length = 32) :
-    ∃ s N, N ≤ 34 * (aad.length / 16) + 34 * ((ct.length - t) / 16) + 2200 ∧
-      Reach openR 0 (openState g v k rk t dst nonce ct aad tmp r0) 1775 s N ∧ AtVerdict g v k rk t dst nonce ct aad tmp r0 s :=
-  open_verdict12 g v k rk t dst nonce ct aad tmp r0 hG hV hK hrk hrkb hn hnb hab hall hcb hcl ht htc htmp
+    ∃ s N, N ≤ 34 * (nonce.length / 16) + 34 * (aad.length / 16) + 34 * ((ct.length - t) / 16) + 2400 ∧
+      Reach openR 0 (openState g v k rk t dst nonce ct aad tmp r0) 1775 s N ∧
+      AtVerdict g v k rk t dst nonce ct aad tmp r0 (j0N rk nonce) s := by
+  obtain ⟨s5, N5, hN5, r5, ap, hf5⟩ := open_prefix_any g v k rk t dst nonce ct aad tmp r0 hG hV hK hrk hrkb hnl hnb hab hall htmp
+  obtain ⟨s9, N9, hN9, r9, av⟩ := open_verdict_after g v k rk t dst nonce ct aad tmp r0 hrk hnl hall hcb hcl ht htc _ s5 ap hf5
+  exact ⟨s9, N5 + N9, by omega, r5.trans r9, av⟩
 
-/-- the decision and the plaintext of the listing (on numbers) are `Model.GCM.open` -/
-theorem openAsm_model_nonce12 (rk nonce ct aad : List Nat) (t fuel : Nat) (hn : nonce.length = 12) (hnb : ∀ x ∈ nonce, x < 2 ^ 8)
+/-- the decision and the plaintext of the listing (on numbers) are `Model.GCM.open`, for every nonce -/
+theorem openAsm_model (rk nonce ct aad : List Nat) (t fuel : Nat) (hnb : ∀ x ∈ nonce, x < 2 ^ 8)
     (hcb : ∀ x ∈ ct, x < 2 ^ 8) (hab : ∀ x ∈ aad, x < 2 ^ 8) (ht : t ≤ 16) (htc : t ≤ ct.length) (hfuel : fuelNeed (ct.length - t) ≤ fuel) :
     Model.GCM.open (encE rk) t (toB nonce) (toB ct) (toB aad)
-      = if orBytes (xorN ((openTagN rk nonce ct aad t).take t) (ct.drop (ct.length - t))) = 0
-        then some (toB (openOutN rk nonce ct t fuel)) else none :=
-  open_model12 rk nonce ct aad t fuel hn hnb hcb hab ht htc hfuel
+      = if orBytes (xorN ((openTagJ rk (j0N rk nonce) ct aad t).take t) (ct.drop (ct.length - t))) = 0
+        then some (toB (openOutJ rk (j0N rk nonce) ct t fuel)) else none :=
+  open_modelJ rk (j0N rk nonce) nonce ct aad t fuel (j0N_length rk nonce) (j0N_bytes rk nonce hnb) (j0N_model rk nonce hnb) hcb hab ht htc hfuel
 
 /-! ### E4 -/
 
-/-- **`openAsm` = Algorithm 5 of SP 800-38D (GCM-AD) over SM4, for 12-byte nonces.**  The pair returned by `runOpen` is (result
+/-- **`openAsm` = Algorithm 5 of SP 800-38D (GCM-AD) over SM4, for EVERY nonce length.**  The pair returned by `runOpen` is (result
     slot `ret1`, destination buffer). -/
-theorem openAsm_eq_spec_nonce12 (g v k rk : List Nat) (t : Nat) (dst nonce ct aad tmp : List Nat) (r0 : Nat)
+theorem openAsm_eq_spec (g v k rk : List Nat) (t : Nat) (dst nonce ct aad tmp : List Nat) (r0 : Nat)
     (hG : g.length = 16) (hV : v.length = 32) (hK : k.length = 8) (hrk : rk.length = 32) (hrkb : ∀ x ∈ rk, x < 2 ^ 32)
-    (hn : nonce.length = 12) (hnb : ∀ x ∈ nonce, x < 2 ^ 8) (hab : ∀ x ∈ aad, x < 2 ^ 8) (hall : aad.length < 2 ^ 32)
+    (hnl : nonce.length < 2 ^ 32) (hnb : ∀ x ∈ nonce, x < 2 ^ 8) (hab : ∀ x ∈ aad, x < 2 ^ 8) (hall : aad.length < 2 ^ 32)
     (hcb : ∀ x ∈ ct, x < 2 ^ 8) (hcl : ct.length < 2 ^ 32) (ht : t ≤ 16) (htc : t ≤ ct.length) (htmp : tmp.length = 32)
     (hdl : ct.length - t ≤ dst.length) (hdl32 : dst.length < 2 ^ 32) (fuel : Nat)
-    (hfuel : 34 * (aad.length / 16) + 34 * ((ct.length - t) / 16) + 700 * ((ct.length - t) / 256) + 6500 < fuel) :
+    (hfuel : 34 * (nonce.length / 16) + 34 * (aad.length / 16) + 34 * ((ct.length - t) / 16) + 700 * ((ct.length - t) / 256) + 7000 < fuel) :
     runOpen fuel (openState g v k rk t dst nonce ct aad tmp r0)
       = .ok (match openGCM (encE rk) t (toB nonce) (toB ct) (toB aad) with
              | some p => (1, spliceAt dst 0 (p.map (·.toNat)))
              | none => (0, dst)) :=
-  openAsm_run12 g v k rk t dst nonce ct aad tmp r0 hG hV hK hrk hrkb hn hnb hab hall hcb hcl ht htc htmp hdl hdl32 fuel hfuel
+  openAsm_run g v k rk t dst nonce ct aad tmp r0 hG hV hK hrk hrkb hnl hnb hab hall hcb hcl ht htc htmp hdl hdl32 fuel hfuel
+
+/-- **`openAsm` called IN PLACE** (`dst` = the input's own array, as `Open(ct[:0], nonce, ct, aad)` passes it) **= Algorithm 5 of
+    SP 800-38D over SM4, for every nonce length.** -/
+theorem openAsm_inplace_eq_spec (g v k rk : List Nat) (t : Nat) (ct nonce ur aad tmp : List Nat) (r0 : Nat)
+    (hG : g.length = 16) (hV : v.length = 32) (hK : k.length = 8) (hrk : rk.length = 32) (hrkb : ∀ x ∈ rk, x < 2 ^ 32)
+    (hnl : nonce.length < 2 ^ 32) (hnb : ∀ x ∈ nonce, x < 2 ^ 8) (hab : ∀ x ∈ aad, x < 2 ^ 8) (hall : aad.length < 2 ^ 32)
+    (hcb : ∀ x ∈ ct, x < 2 ^ 8) (hcl : ct.length < 2 ^ 32) (ht : t ≤ 16) (htc : t ≤ ct.length) (htmp : tmp.length = 32) (hur : ur.length < 2 ^ 32) (fuel : Nat)
+    (hfuel : 34 * (nonce.length / 16) + 34 * (aad.length / 16) + 34 * ((ct.length - t) / 16) + 700 * ((ct.length - t) / 256) + 7000 < fuel) :
+    runOpen fuel (openStateInPlace g v k rk t ct nonce ur aad tmp r0)
+      = .ok (match openGCM (encE rk) t (toB nonce) (toB ct) (toB aad) with
+             | some p => (1, spliceAt ct 0 (p.map (·.toNat)))
+             | none => (0, ct)) :=
+  openAsm_inplace_run g v k rk t ct nonce ur aad tmp r0 hG hV hK hrk hrkb hnl hnb hab hall hcb hcl ht htc htmp hur fuel hfuel
 
 end SMGo.Props.C07Asm
 
@@ -91,6 +110,7 @@ end SMGo.Props.C07Asm
 #print axioms SMGo.Props.C07Asm.openAsm_labels
 #print axioms SMGo.Props.C07Asm.constantTimeCompare_is_or_of_xors
 #print axioms SMGo.Props.C07Asm.or_of_xors_zero_iff
-#print axioms SMGo.Props.C07Asm.openAsm_until_verdict_nonce12
-#print axioms SMGo.Props.C07Asm.openAsm_model_nonce12
-#print axioms SMGo.Props.C07Asm.openAsm_eq_spec_nonce12
+#print axioms SMGo.Props.C07Asm.openAsm_until_verdict
+#print axioms SMGo.Props.C07Asm.openAsm_model
+#print axioms SMGo.Props.C07Asm.openAsm_eq_spec
+#print axioms SMGo.Props.C07Asm.openAsm_inplace_eq_spec
